@@ -1,0 +1,43 @@
+// Copyright 2026 The Go Authors. All rights reserved.
+// Use of this source code is governed by a BSD-style
+// license that can be found in the LICENSE file.
+
+//go:build verif
+
+package impl
+
+import (
+	"sync/atomic"
+	"unsafe"
+
+	"google.golang.org/protobuf/reflect/protoreflect"
+)
+
+// Verification hooks, compiled in only with the verif build tag. A harness may
+// install functions that are called by lazyUnmarshal (a) after a goroutine has
+// decoded its private copy of a lazy field and before it tries to publish it,
+// and (b) right after the compare-and-swap, with its outcome. This lets a test
+// own the one schedule point that decides whether concurrent readers race for
+// the publication, and count winners and losers.
+
+type VerifLazyHook struct {
+	Decoded   func(mi *MessageInfo, msg unsafe.Pointer, num protoreflect.FieldNumber)
+	Published func(mi *MessageInfo, msg unsafe.Pointer, num protoreflect.FieldNumber, won bool)
+}
+
+var verifLazyHook atomic.Pointer[VerifLazyHook]
+
+// SetVerifLazyHook installs h (nil removes it).
+func SetVerifLazyHook(h *VerifLazyHook) { verifLazyHook.Store(h) }
+
+func verifLazyDecoded(mi *MessageInfo, msg unsafe.Pointer, num protoreflect.FieldNumber) {
+	if h := verifLazyHook.Load(); h != nil && h.Decoded != nil {
+		h.Decoded(mi, msg, num)
+	}
+}
+
+func verifLazyPublished(mi *MessageInfo, msg unsafe.Pointer, num protoreflect.FieldNumber, won bool) {
+	if h := verifLazyHook.Load(); h != nil && h.Published != nil {
+		h.Published(mi, msg, num, won)
+	}
+}
